@@ -411,3 +411,11 @@ _app("C07", "technique", " + Node.run translated on every run and proved equal t
 _app("C09", "text", " The parallel glue is ALSO translated on every run (tools/vlib/py2coq_par.py -> coq/gen/Gen_parallel.v): _sort_and_unpack equals the model's, so outputs come back in input order for "
      "every completion order of the tasks; the ESN.run dispatch numbers task i with index i and its own data; the ESN.fit lock rule, per-task data and clean-up on failure (C09_generated_*).")
 _app("C09", "note", " Tie (T) for the glue models joblib as an arbitrary permutation of the tasks (weaker than its submission-order contract); ESN.fit's last_states[-1] relies on that contract (noted).")
+_app("C02", "text", " The data-plumbing runner is bridged to R too (coq/proofs/QR_bridge_Mapping.v): every plumbing function of model/Mapping.v is natural in the row type, model_run is related through "
+     "QR_bridge_Model.v, and a green chk_* of run/RunMapping.v is a statement about the R-model (C02_plumbing_natural, C02_chk_model_run_is_about_R_model).")
+_app("C05", "text", " The sub-model sender runner is bridged to R (coq/proofs/QR_bridge_SubSender.v): related states, EQUAL _fb_flag bits and forward-entry counters, same success flags, for cdn / "
+     "run_reduced / step_s / run_s / call_s; a green chk_subsender is a statement about the R-model history (C05_chk_subsender_is_about_R_model).")
+_app("C03", "text", " concat_multi_inputs and _link_1to1 of ops.py are ALSO translated on every run (tools/vlib/py2coq_ops.py -> coq/gen/Gen_ops.v, on top of the generated find_parents_and_children): "
+     "the generated Concat insertion has exactly the nodes and edges of the hand model for every graph, so the insertion theorem speaks about the translated text; the generated _link_1to1 raises "
+     "exactly on an initialised dimension mismatch (C03_generated_concat_is_model, C03_generated_concat_insertion, C03_generated_link_1to1_is_model).")
+_app("C03", "note", " Tie (T), second unit: list(<set>) and sorted(edges) are arbitrary permutations; exact for pairwise distinct nodes; link / merge / Model.__init__ stay on tie (H).")
